@@ -173,6 +173,10 @@ func vBatchSetup() (*client, *vBatchEnv, context.Context) {
 	sleepAndIncreaseBackoffOverride = func(ctx context.Context, b time.Duration) (time.Duration, error) {
 		e.backoffs++
 		e.round++
+		if e.cancel != nil && verifBool() {
+			e.cancel() // the context is cancelled while the batch sleeps before a retry
+			e.cancel = nil
+		}
 		if ctx.Err() != nil {
 			return 0, ctx.Err()
 		}
